@@ -139,6 +139,12 @@ func GenExpr(r *Rand) Expr {
 		{".a % 3", "construct", false, false},
 		{".d[] | split_doc | [., document_index]", "splitdoc", false, false},
 		{".e[] | split_doc | .piece = document_index", "splitdoc", false, false},
+		{".nl[]", "iterate", true, false},
+		{".nl | .[1]", "path", true, false},
+		{".. | select(tag == \"!!null\")", "recurse", true, false},
+		{"., .b", "union", true, false},
+		{"., .c", "union", true, false},
+		{".. | select(kind == \"map\")", "recurse", true, false},
 		{".e[].v = .a", "assign", true, true},
 		{".d[] = .a", "assign", true, true},
 		{".c[] = .id", "assign", true, true},
